@@ -352,16 +352,690 @@ pub fn oracles(v: &View, stats: &mut Stats) -> Vec<Record> {
     out
 }
 
-/// Event-loop half: absent until `src/sub/s3.rs` exists.
-pub fn s3_half(_ctx: &Ctx, _stats: &mut Stats) {}
+// ------------------------------------------------------------------ event-loop half (S3)
+
+mod el {
+    //! Real `EventLoop::poll()` against the scripted broker, transports that never fail: the
+    //! frames the broker wrote (wire-in) against the `Incoming` events, the frames the broker
+    //! received (wire-out) against the `Outgoing` events, replies per inbound flow.
+    use super::ID;
+    use crate::common::{fnv, judge, Ctx, Judged, Record, Rng, Stats};
+    use crate::gen::cs3::{self, BurstSpec, Case, ConnSpec, UOp, UStep, F, W};
+    use crate::sub::s3::{Dir, ErrClass, Ev, Kind, Pk, RunLog, Ver};
+    use serde_json::{json, Value};
+    use std::collections::BTreeMap;
+
+    /// ids the client never allocates in these scenarios (inflight limit 10)
+    const FOREIGN_ID: u16 = 60000;
+
+    fn same(a: &Pk, b: &Pk) -> bool {
+        a.kind == b.kind
+            && a.pkid == b.pkid
+            && (a.kind != Kind::Publish || (a.qos == b.qos && a.topic == b.topic && a.payload == b.payload))
+            && (a.kind != Kind::ConnAck || a.flag == b.flag)
+    }
+
+    fn client_raised(c: &ErrClass) -> bool {
+        matches!(
+            c,
+            ErrClass::Unsolicited(_) | ErrClass::WrongPacket | ErrClass::Deserialization | ErrClass::ServerDisconnect | ErrClass::Other
+        )
+    }
+
+    pub fn gen_case(rng: &mut Rng, ver: Ver, trigger: bool, n: u64) -> Case {
+        let manual = rng.chance(2, 5);
+        let mut steps = vec![];
+        let mut conns = vec![];
+        let n_conns = rng.range(1, 3) as usize;
+        let mut payload = 0u64;
+        let mut next_in = 0u16;
+        for c in 0..n_conns {
+            let last = c + 1 == n_conns;
+            // releases are scripted explicitly (which read they travel in matters), so the
+            // broker does not answer the client's PUBREC by itself
+            let mut spec = ConnSpec::normal(c > 0).rule(cs3::Cls::PubRec, vec![], cs3::R::Drop);
+            let mut due_rel: Vec<u16> = vec![];
+            let mut pub_idx = 0usize; // index of inbound publishes on this connection
+            let n_bursts = rng.range(1, 4);
+            let mut hostile_placed = false;
+            for b in 0..n_bursts {
+                let size = match rng.below(8) {
+                    0 => 0,
+                    1 => rng.range(10, 12),
+                    2 => 9,
+                    _ => rng.range(1, 5),
+                } as usize;
+                let mut frames: Vec<F> = vec![];
+                let mut replies_so_far = false;
+                for _ in 0..size {
+                    match rng.weighted(&[40, 14, 6, 5, 5]) {
+                        0 => {
+                            let qos = rng.below(3) as u8;
+                            let pkid = if qos == 0 {
+                                0
+                            } else {
+                                match rng.below(12) {
+                                    0 => 65535,
+                                    1 => 11,
+                                    2 if next_in > 0 => next_in, // repeated id
+                                    _ => {
+                                        next_in = next_in % 40 + 1;
+                                        next_in
+                                    }
+                                }
+                            };
+                            payload += 1;
+                            frames.push(F::Publish {
+                                qos,
+                                pkid,
+                                topic: (*rng.pick(&["a", "a/b", "t/1"])).to_owned(),
+                                payload: format!("in{n}-{payload}"),
+                            });
+                            if qos == 2 && !due_rel.contains(&pkid) {
+                                due_rel.push(pkid);
+                            }
+                            if qos > 0 && !manual {
+                                replies_so_far = true;
+                            }
+                            if manual && qos > 0 && rng.chance(2, 3) {
+                                steps.push(UStep {
+                                    when: W::AfterPublishIn { conn: c, nth: pub_idx },
+                                    op: UOp::Ack { qos, pkid },
+                                });
+                            }
+                            pub_idx += 1;
+                        }
+                        1 => {
+                            if !due_rel.is_empty() {
+                                let i = rng.below(due_rel.len() as u64) as usize;
+                                frames.push(F::PubRel(due_rel.remove(i)));
+                                replies_so_far = true;
+                            }
+                        }
+                        2 => frames.push(F::SubAck(rng.range(1, 10) as u16)),
+                        3 => frames.push(F::UnsubAck(rng.range(1, 10) as u16)),
+                        _ => frames.push(F::PingResp),
+                    }
+                }
+                // something the client must refuse: at most one per connection, never on the last
+                if !last && !hostile_placed && (b + 1 == n_bursts || rng.chance(1, 3)) {
+                    let h = match rng.below(5) {
+                        0 => F::PubAck(FOREIGN_ID + c as u16),
+                        1 => F::PubRec(FOREIGN_ID + c as u16),
+                        2 => F::PubComp(FOREIGN_ID + c as u16),
+                        3 => F::PubRel(FOREIGN_ID + c as u16),
+                        _ => F::PingReq,
+                    };
+                    // known finding trigger: a refused packet behind packets that were answered
+                    // in the same read. Trigger-free: the refused packet travels alone or behind
+                    // packets that need no answer.
+                    if replies_so_far && !trigger {
+                        spec.bursts.push(BurstSpec {
+                            at_ms: 10 + 20 * b,
+                            frames: std::mem::take(&mut frames),
+                        });
+                        spec.bursts.push(BurstSpec {
+                            at_ms: 10 + 20 * b + 10,
+                            frames: vec![h],
+                        });
+                    } else {
+                        frames.push(h);
+                    }
+                    hostile_placed = true;
+                }
+                if !frames.is_empty() || size == 0 {
+                    spec.bursts.push(BurstSpec {
+                        at_ms: 10 + 20 * b,
+                        frames,
+                    });
+                }
+                if hostile_placed {
+                    break;
+                }
+            }
+            // user requests on this connection
+            let when0 = if c == 0 { W::AfterConnAck(0) } else { W::AfterConnAck(c) };
+            for _ in 0..rng.range(0, 4) {
+                payload += 1;
+                steps.push(UStep {
+                    when: if rng.chance(1, 2) { when0.clone() } else { W::AtMs(15 + 20 * rng.below(3)) },
+                    op: UOp::Pub {
+                        qos: rng.below(3) as u8,
+                        payload: format!("u{n}-{payload}"),
+                    },
+                });
+            }
+            if rng.chance(1, 4) {
+                steps.push(UStep {
+                    when: when0,
+                    op: UOp::Sub { filter: "a/#".into() },
+                });
+            }
+            conns.push(spec);
+        }
+        // whatever happens on the scripted connections, the run ends on a quiet one
+        conns.push(ConnSpec::normal(true).rule(cs3::Cls::PubRec, vec![], cs3::R::Drop));
+        Case {
+            name: format!("c10-random-{n}"),
+            ver: ver.name().into(),
+            inflight: 10,
+            manual,
+            steps,
+            conns,
+        }
+    }
+
+    pub fn verdicts(case: &Case, log: &RunLog, stats: &mut Stats) -> Vec<Record> {
+        let mut out = vec![];
+        let ver = case.ver().name();
+        let rec = |oracle: &str, msg: String| Record::new(ID, oracle, msg).fact("version", ver).fact("substrate", "S3");
+        stats.oracle("C10/s3/no-panic");
+        if let Some(p) = &log.panic {
+            out.push(
+                rec("panic", format!("poll() panicked at {}: {}", p.location, p.message))
+                    .fact("site", crate::common::panic_site(p))
+                    .fact("after", "poll"),
+            );
+            return out;
+        }
+        let prod = cs3::produced(log);
+        stats.oracle("C10/s3/event-queue-is-fifo");
+        if let Some(a) = prod.anomalies.first() {
+            out.push(rec("event-queue-differs", format!("events were not handed out in the order they were queued: {a}")));
+            return out;
+        }
+        let (head, segs) = cs3::by_connection(&prod.events);
+        let conns = cs3::connacked_conns(log);
+        stats.oracle("C10/s3/one-connack-event-per-connection");
+        if !head.is_empty() || segs.len() != conns.len() {
+            out.push(rec(
+                "incoming-events-differ",
+                format!(
+                    "{} connections got a CONNACK on the wire but {} CONNACK events were surfaced ({} events before the first)",
+                    conns.len(),
+                    segs.len(),
+                    head.len()
+                ),
+            )
+            .fact("what", "connack-count"));
+            return out;
+        }
+        let last_poll = log.polls.last();
+        for (si, seg) in segs.iter().enumerate() {
+            let c = conns[si];
+            let is_last = si + 1 == segs.len();
+            // how this connection ended
+            let end = log.end_of(c);
+            let end_class = end.and_then(|p| p.err()).map(|e| e.class.clone());
+            let ended_by_client_error = end_class.as_ref().map(client_raised).unwrap_or(false);
+            let err_poll = end.map(|p| p.idx);
+            let transport_failed = log.conns.get(c).map(|r| r.fired.is_some()).unwrap_or(false)
+                || matches!(end_class, Some(ErrClass::Io(_)) | Some(ErrClass::ConnectionAborted));
+
+            // (A) wire-in vs Incoming events
+            stats.oracle("C10/s3/incoming-events-match-wire-in");
+            let wire_in: Vec<&Pk> = log.wire_of(c, Dir::B2C).map(|w| &w.pk).collect();
+            let evs_in: Vec<&Ev> = seg.iter().map(|(_, e)| e).filter(|e| e.incoming).collect();
+            let mut bad = None;
+            for (i, e) in evs_in.iter().enumerate() {
+                match wire_in.get(i) {
+                    Some(w) if same(w, &e.pk) => {}
+                    Some(w) => {
+                        bad = Some(format!("event #{i} is {} but frame #{i} on the wire was {}", e.pk.brief(), w.brief()));
+                        break;
+                    }
+                    None => {
+                        bad = Some(format!("event #{i} {} has no frame on the wire", e.pk.brief()));
+                        break;
+                    }
+                }
+            }
+            let alive_at_end = is_last && end.is_none() && log.stopped_by == "stop-condition";
+            if bad.is_none() && alive_at_end && evs_in.len() != wire_in.len() {
+                bad = Some(format!(
+                    "the connection went idle, {} frames were delivered but only {} were surfaced (first missing: {})",
+                    wire_in.len(),
+                    evs_in.len(),
+                    wire_in[evs_in.len()].brief()
+                ));
+            }
+            if let Some(b) = bad {
+                out.push(rec("incoming-events-differ", format!("connection {c}: {b}")).fact("what", "sequence"));
+                return out;
+            }
+
+            // (B) Outgoing events vs wire-out, transports that never failed
+            if !transport_failed {
+                stats.oracle("C10/s3/outgoing-events-match-wire-out");
+                let frames: Vec<&Pk> = log
+                    .conns
+                    .get(c)
+                    .map(|r| r.intended.iter().filter(|f| f.pk.kind != Kind::Connect).map(|f| &f.pk).collect())
+                    .unwrap_or_default();
+                let evs_out: Vec<&(usize, Ev)> = seg.iter().filter(|(_, e)| !e.incoming && e.pk.kind != Kind::AwaitAck).collect();
+                let n = frames.len().min(evs_out.len());
+                for i in 0..n {
+                    let (f, e) = (frames[i], &evs_out[i].1.pk);
+                    if f.kind != e.kind || f.pkid != e.pkid {
+                        out.push(
+                            rec(
+                                "outgoing-events-differ",
+                                format!("connection {c}: frame #{i} written is {} but Outgoing event #{i} is {}", f.brief(), e.brief()),
+                            )
+                            .fact("what", "sequence"),
+                        );
+                        return out;
+                    }
+                }
+                if frames.len() > n {
+                    out.push(
+                        rec(
+                            "outgoing-events-differ",
+                            format!("connection {c}: {} was written but never announced", frames[n].brief()),
+                        )
+                        .fact("what", "written-not-announced"),
+                    );
+                    return out;
+                }
+                if evs_out.len() > n {
+                    let (poll, e) = evs_out[n];
+                    // replies of the read batch in which the client itself raised an error
+                    let in_failing_batch = ended_by_client_error && Some(*poll) == err_poll;
+                    out.push(
+                        rec(
+                            "announced-not-written",
+                            format!(
+                                "connection {c}: Outgoing({}) was announced but the packet never reached the transport (connection ended with {:?}, transport never failed)",
+                                e.pk.brief(),
+                                end_class
+                            ),
+                        )
+                        .fact("announced", format!("{:?}", e.pk.kind))
+                        .fact(
+                            "cause",
+                            if in_failing_batch {
+                                "client-error-later-in-read-batch"
+                            } else {
+                                "unexplained"
+                            },
+                        ),
+                    );
+                    return out;
+                }
+            }
+
+            // (C) replies per inbound flow on the wire of this connection
+            if !transport_failed {
+                stats.oracle("C10/s3/inbound-flow-replies-on-wire");
+                let mut want: BTreeMap<(Kind, u16), i64> = BTreeMap::new();
+                let mut open_q2: Vec<u16> = vec![];
+                for (poll, e) in seg.iter().filter(|(_, e)| e.incoming) {
+                    // packets of the batch that ended the connection may have lost their replies
+                    // to the known finding reported under (B)
+                    let _ = poll;
+                    match e.pk.kind {
+                        Kind::Publish if e.pk.qos == 1 => *want.entry((Kind::PubAck, e.pk.pkid)).or_default() += 1,
+                        Kind::Publish if e.pk.qos == 2 => {
+                            *want.entry((Kind::PubRec, e.pk.pkid)).or_default() += 1;
+                            if !open_q2.contains(&e.pk.pkid) {
+                                open_q2.push(e.pk.pkid);
+                            }
+                        }
+                        Kind::PubRel => {
+                            if let Some(i) = open_q2.iter().position(|x| *x == e.pk.pkid) {
+                                open_q2.remove(i);
+                                *want.entry((Kind::PubComp, e.pk.pkid)).or_default() += 1;
+                            }
+                        }
+                        _ => {}
+                    }
+                }
+                let mut got: BTreeMap<(Kind, u16), i64> = BTreeMap::new();
+                for w in log.wire_of(c, Dir::C2B) {
+                    if matches!(w.pk.kind, Kind::PubAck | Kind::PubRec | Kind::PubComp) {
+                        *got.entry((w.pk.kind, w.pk.pkid)).or_default() += 1;
+                    }
+                }
+                let user_acks = |kind: Kind, pkid: u16| -> i64 {
+                    log.user
+                        .iter()
+                        .filter(|u| u.ok && matches!(&u.act, crate::sub::s3::Act::Ack { qos, pkid: p } if *p == pkid && ((*qos == 1 && kind == Kind::PubAck) || (*qos == 2 && kind == Kind::PubRec))))
+                        .count() as i64
+                };
+                if case.manual {
+                    // none of PUBACK / PUBREC on its own
+                    for ((kind, pkid), n) in &got {
+                        if *kind == Kind::PubComp {
+                            continue;
+                        }
+                        if *n > user_acks(*kind, *pkid) {
+                            out.push(
+                                rec(
+                                    "inbound-reply-wrong",
+                                    format!("connection {c}: manual_acks is on, the user acknowledged id {pkid} {} times, but {n} {kind:?}({pkid}) were written", user_acks(*kind, *pkid)),
+                                )
+                                .fact("manual", true)
+                                .fact("expected", "none")
+                                .fact("got", format!("{kind:?}")),
+                            );
+                            return out;
+                        }
+                    }
+                } else if alive_at_end || !ended_by_client_error {
+                    for ((kind, pkid), n) in &want {
+                        let g = got.get(&(*kind, *pkid)).copied().unwrap_or(0);
+                        if g != *n {
+                            out.push(
+                                rec(
+                                    "inbound-reply-wrong",
+                                    format!("connection {c}: {n} inbound packets demand {kind:?}({pkid}) but {g} were written"),
+                                )
+                                .fact("manual", false)
+                                .fact("expected", format!("{kind:?}"))
+                                .fact("got", if g == 0 { "none".to_owned() } else { format!("{g}x") }),
+                            );
+                            return out;
+                        }
+                    }
+                    for ((kind, pkid), g) in &got {
+                        if !want.contains_key(&(*kind, *pkid)) {
+                            out.push(
+                                rec(
+                                    "inbound-reply-wrong",
+                                    format!("connection {c}: {g} {kind:?}({pkid}) written although no inbound packet demands it"),
+                                )
+                                .fact("manual", false)
+                                .fact("expected", "none")
+                                .fact("got", format!("{kind:?}")),
+                            );
+                            return out;
+                        }
+                    }
+                }
+            }
+
+            // (D) an acknowledgement nobody solicited ends the connection with an error and
+            // leaves what the client holds unchanged
+            for (poll, e) in seg.iter().filter(|(_, e)| e.incoming) {
+                if matches!(e.pk.kind, Kind::PubAck | Kind::PubRec | Kind::PubComp) && e.pk.pkid >= FOREIGN_ID {
+                    stats.oracle("C10/s3/unsolicited-ack-is-error");
+                    stats.corner("s3-unsolicited-ack");
+                    let ok = matches!(end_class, Some(ErrClass::Unsolicited(id)) if id == e.pk.pkid) && Some(*poll) == err_poll;
+                    if !ok {
+                        out.push(
+                            rec(
+                                "unsolicited-ack-accepted",
+                                format!("connection {c}: {} answers nothing, yet the connection ended with {:?}", e.pk.brief(), end_class),
+                            )
+                            .fact("packet", format!("{:?}", e.pk.kind)),
+                        );
+                        return out;
+                    }
+                    // bookkeeping: only judged when the refused packet was alone in its read
+                    let alone = prod.events.iter().filter(|(p, x)| p == poll && x.incoming).count() == 1;
+                    if alone && *poll > 0 {
+                        stats.oracle("C10/s3/unsolicited-leaves-bookkeeping-unchanged");
+                        let key = |s: &crate::sub::s3::Snap| {
+                            let mut v: Vec<String> = s
+                                .held
+                                .iter()
+                                .chain(s.pending.iter())
+                                .filter(|r| matches!(r.kind, Kind::Publish | Kind::PubRel))
+                                .map(|r| format!("{:?}/{}/{}", r.kind, r.pkid, r.payload))
+                                .collect();
+                            v.sort();
+                            (v, s.collision, s.collision_payload.clone())
+                        };
+                        let (b, a) = (key(&log.polls[*poll - 1].snap), key(&log.polls[*poll].snap));
+                        if b != a {
+                            out.push(
+                                rec(
+                                    "unsolicited-ack-changed-state",
+                                    format!("connection {c}: {} was refused, yet what the client holds changed from {:?} to {:?}", e.pk.brief(), b, a),
+                                )
+                                .fact("packet", format!("{:?}", e.pk.kind))
+                                .fact("changed", "held"),
+                            );
+                            return out;
+                        }
+                    }
+                }
+            }
+            let _ = last_poll;
+        }
+        out
+    }
+
+    fn corners(case: &Case, log: &RunLog, stats: &mut Stats) -> bool {
+        let mut any = false;
+        if case.manual {
+            stats.corner("s3-manual-acks");
+        }
+        for c in &case.conns {
+            for b in &c.bursts {
+                if b.frames.len() >= 10 {
+                    stats.corner("s3-read-batch-over-limit");
+                    any = true;
+                }
+                if b.frames.is_empty() {
+                    stats.corner("s3-empty-batch");
+                }
+            }
+        }
+        if log.conns.len() >= 2 {
+            stats.corner("s3-client-ended-connection");
+            any = true;
+        }
+        if log.wire.iter().any(|w| w.dir == Dir::C2B && w.pk.kind == Kind::PubComp) {
+            stats.corner("s3-pubcomp-on-wire");
+            any = true;
+        }
+        if log.wire.iter().any(|w| w.dir == Dir::C2B && matches!(w.pk.kind, Kind::PubAck | Kind::PubRec)) {
+            any = true;
+        }
+        any
+    }
+
+    pub fn run_case(ctx: &Ctx, stats: &mut Stats, case: &Case) -> bool {
+        let log = cs3::run(case);
+        stats.evaluations += 1;
+        stats.op("s3-history");
+        cs3::census(stats, &log);
+        if let Some(e) = &log.harness_error {
+            stats.inconclusive.push(format!("S3 harness: {e} (case {}: {})", case.name, serde_json::to_string(case).unwrap_or_default()));
+            return false;
+        }
+        if corners(case, &log, stats) {
+            let shape: Vec<String> = log
+                .wire
+                .iter()
+                .map(|w| format!("{}{:?}", if w.dir == Dir::C2B { '>' } else { '<' }, w.pk.kind))
+                .collect();
+            stats.shapes.insert(fnv(format!("{}|{}|{}", case.ver, case.manual, shape.join(",")).as_bytes()));
+        }
+        let recs = verdicts(case, &log, stats);
+        if stats.evaluations % 97 == 3 {
+            stats.sample(json!({"kind": "S3", "case": case, "observed": log.brief(60)}));
+        }
+        for r in recs {
+            let replay = || json!({"substrate": "S3", "case": case, "observed": log.brief(300)});
+            match judge(ctx, stats, r, replay) {
+                Judged::Known(_) => return true,
+                Judged::Violation => return true,
+            }
+        }
+        false
+    }
+
+    pub fn directed(ver: Ver) -> Vec<Case> {
+        let v = ver.name().to_owned();
+        let inp = |qos: u8, pkid: u16, p: &str| F::Publish {
+            qos,
+            pkid,
+            topic: "a".into(),
+            payload: p.into(),
+        };
+        vec![
+            // every inbound flow, auto-ack, 12 packets in one write (crosses the read batch)
+            Case {
+                name: "s3-inbound-auto".into(),
+                ver: v.clone(),
+                inflight: 10,
+                manual: false,
+                steps: vec![UStep {
+                    when: W::AfterConnAck(0),
+                    op: UOp::Pub {
+                        qos: 1,
+                        payload: "u1".into(),
+                    },
+                }],
+                conns: vec![ConnSpec {
+                    bursts: vec![
+                        BurstSpec {
+                            at_ms: 10,
+                            frames: (0..12).map(|i| inp((i % 3) as u8, if i % 3 == 0 { 0 } else { 20 + i }, &format!("i{i}"))).collect(),
+                        },
+                        BurstSpec {
+                            at_ms: 30,
+                            frames: vec![F::PubRel(22), F::PubRel(25), F::PingResp, F::SubAck(3)],
+                        },
+                        BurstSpec { at_ms: 50, frames: vec![] },
+                    ],
+                    ..ConnSpec::normal(false).rule(cs3::Cls::PubRec, vec![], cs3::R::Drop)
+                }, ConnSpec::normal(true)],
+            },
+            // manual acknowledgements
+            Case {
+                name: "s3-inbound-manual".into(),
+                ver: v.clone(),
+                inflight: 10,
+                manual: true,
+                steps: vec![
+                    UStep {
+                        when: W::AfterPublishIn { conn: 0, nth: 0 },
+                        op: UOp::Ack { qos: 1, pkid: 7 },
+                    },
+                    UStep {
+                        when: W::AfterPublishIn { conn: 0, nth: 1 },
+                        op: UOp::Ack { qos: 2, pkid: 8 },
+                    },
+                ],
+                conns: vec![ConnSpec {
+                    bursts: vec![
+                        BurstSpec {
+                            at_ms: 10,
+                            frames: vec![inp(1, 7, "i1"), inp(2, 8, "i2"), inp(1, 9, "never-acked")],
+                        },
+                        BurstSpec {
+                            at_ms: 40,
+                            frames: vec![F::PubRel(8)],
+                        },
+                    ],
+                    ..ConnSpec::normal(false).rule(cs3::Cls::PubRec, vec![], cs3::R::Drop)
+                }, ConnSpec::normal(true)],
+            },
+            // an unsolicited acknowledgement alone in its read: error, reconnect, life goes on
+            Case {
+                name: "s3-unsolicited-alone".into(),
+                ver: v.clone(),
+                inflight: 10,
+                manual: false,
+                steps: vec![UStep {
+                    when: W::AfterConnAck(0),
+                    op: UOp::Pub {
+                        qos: 1,
+                        payload: "u1".into(),
+                    },
+                }],
+                conns: vec![
+                    ConnSpec {
+                        bursts: vec![BurstSpec {
+                            at_ms: 20,
+                            frames: vec![F::PubComp(FOREIGN_ID)],
+                        }],
+                        ..ConnSpec::normal(false)
+                    }
+                    .rule(cs3::Cls::Q1, vec![], cs3::R::Drop),
+                    ConnSpec::normal(true),
+                ],
+            },
+            // DESIGN.md section 4, F14: a reply is announced, then dropped with the connection
+            Case {
+                name: "s3-F14-reply-announced-then-dropped".into(),
+                ver: v,
+                inflight: 10,
+                manual: false,
+                steps: vec![],
+                conns: vec![
+                    ConnSpec {
+                        bursts: vec![BurstSpec {
+                            at_ms: 10,
+                            frames: vec![inp(1, 5, "i1"), F::PubAck(FOREIGN_ID)],
+                        }],
+                        ..ConnSpec::normal(false)
+                    },
+                    ConnSpec::normal(true),
+                ],
+            },
+        ]
+    }
+
+    pub fn run(ctx: &Ctx, stats: &mut Stats, seed: u64, n: u64, with_directed: bool) {
+        let mut rng = Rng::new(seed ^ 0x5310);
+        if with_directed {
+            for ver in [Ver::V4, Ver::V5] {
+                for case in directed(ver) {
+                    run_case(ctx, stats, &case);
+                    stats.add_extra("s3_directed_scenarios", 1);
+                }
+            }
+        }
+        for i in 0..n {
+            let ver = if rng.chance(1, 2) { Ver::V4 } else { Ver::V5 };
+            let trigger = rng.chance(15, 100);
+            let case = gen_case(&mut rng, ver, trigger, seed.wrapping_mul(100_000) + i);
+            run_case(ctx, stats, &case);
+            if stats.violations.len() >= 5 {
+                break;
+            }
+        }
+    }
+
+    pub fn replay(ctx: &Ctx, doc: &Value) -> Stats {
+        let mut stats = Stats::default();
+        match serde_json::from_value::<Case>(doc["case"].clone()) {
+            Ok(case) => {
+                run_case(ctx, &mut stats, &case);
+            }
+            Err(e) => stats.inconclusive.push(format!("replay file does not hold an S3 case: {e}")),
+        }
+        stats.shapes.insert(1);
+        stats.shapes.insert(2);
+        stats
+    }
+}
 
 fn run(ctx: &Ctx) -> Stats {
     let mut stats = cwork::run_family(ctx, ID, cwork::PROFILE_C10, 15_000, 3_000_000);
-    s3_half(ctx, &mut stats);
+    // event-loop half
+    if ctx.quick() {
+        el::run(ctx, &mut stats, ctx.seed, ctx.size(1500, 0), true);
+    } else {
+        let per = ctx.size(0, 400_000) / ctx.threads.max(1) as u64 + 1;
+        let s3 = crate::common::sharded(ctx, ctx.threads, |shard, seed| {
+            let mut st = Stats::default();
+            el::run(ctx, &mut st, seed, per, shard == 0);
+            st
+        });
+        stats.merge(s3);
+    }
     stats
 }
 
 fn replay(ctx: &Ctx, doc: &Value) -> Stats {
+    if doc["substrate"] == "S3" {
+        return el::replay(ctx, doc);
+    }
     cwork::replay_family(ctx, ID, doc)
 }
 
